@@ -175,11 +175,12 @@ pub fn c07(ctx: &Ctx) -> (CheckMeta, Outcome) {
     }
     let mut out = run_all(tasks, threads());
     out.merge(crate::props::huge::read_huge("C07", ctx));
+    out.merge(crate::props::prepos::prepositioned("C07", ctx));
     (
         std_meta(
             "C07",
             "model_checking",
-            "BFS to the fixpoint of the real reader for every (endianness, reader kind, backend in zero-extended/strict memory, vector/slice writer read back, Cursor and BufReader<Cursor> through WordAdapter, also over byte streams with a partial trailing word); alphabet: boundary read_bits/peek/skip, read_unary, every read variant (tables on/off) of 12 codes, io::Read of 0,1,3,8,9,17 bytes, and set_bit_pos(p) for EVERY p in 0..=L from EVERY reachable state; after every transition bit_pos() must equal the model position; states reached through a reported error (strict backends) are continued by seeks; a post-seek object that differs from every sequentially reached state is a new state and is expanded with the full alphabet (differential oracle: seek(p) == fresh reader that consumed p bits); the byte-stream backends include a seekable source that delivers its bytes in pieces (junctions inside and between words, ErrorKind::Interrupted at each junction); plus positions around and beyond 2^32 on a synthetic sparse word source: bit_pos after read_unary / skip_bits of about 2^32 bits and seeks to such positions followed by reads",
+            "BFS to the fixpoint of the real reader for every (endianness, reader kind, backend in zero-extended/strict memory, vector/slice writer read back, Cursor and BufReader<Cursor> through WordAdapter, also over byte streams with a partial trailing word); alphabet: boundary read_bits/peek/skip, read_unary, every read variant (tables on/off) of 12 codes, io::Read of 0,1,3,8,9,17 bytes, and set_bit_pos(p) for EVERY p in 0..=L from EVERY reachable state; after every transition bit_pos() must equal the model position; states reached through a reported error (strict backends) are continued by seeks; a post-seek object that differs from every sequentially reached state is a new state and is expanded with the full alphabet (differential oracle: seek(p) == fresh reader that consumed p bits); the byte-stream backends include a seekable source that delivers its bytes in pieces (junctions inside and between words, ErrorKind::Interrupted at each junction); plus positions around and beyond 2^32 on a synthetic sparse word source: bit_pos after read_unary / skip_bits of about 2^32 bits and seeks to such positions followed by reads; plus adapters created over a Cursor / BufReader<Cursor> ALREADY positioned 1..3 words into the byte stream: bit_pos() at creation is absolute, and every sequence of up to 4 (thorough: 5) operations from a 12-letter alphabet (reads, unary, peek, skip, gamma, save/restore position, absolute seeks) gives the same values and positions as on a reader created at offset 0 and moved there by set_bit_pos",
         ),
         out,
     )
